@@ -158,3 +158,12 @@ def c02_cv_fee_accounting(ctx, v):
             seen += 1
         v.covers_total += 1
         v.covers_sat += 1 if seen else 0
+
+
+def c02_generate_commits_every_atr(ctx, v):
+    """ATR-typed transactions are exempt from the no-mint comparison of Transaction::validate;
+    what keeps an unsolicited one (no inputs, arbitrary outputs) from minting is the rebroadcast
+    commitment — every ATR-typed transaction of a received block must be folded into it, whatever
+    the slip types of its outputs (same obligation as C13 c13_generate_commits_every_atr)."""
+    from . import obl_c13
+    obl_c13.c13_generate_commits_every_atr(ctx, v)
